@@ -616,7 +616,9 @@ class Folder:
             # a function item used as a value (`.map(SymbolSize::num_data_codewords)`, `.all(u8::is_ascii_digit)`)
             return {"__fn__": canon(e.get("resolved") or e.get("fn") or "?")}
         if k == "Closure":
-            return {"__closure__": e["def"]}
+            # the closure remembers the environment it was created in: applied inside another function (a callee that received it),
+            # its captured variables must not be confused with that function's locals of the same name
+            return {"__closure__": e["def"], "__env__": self.env}
         if k == "Break" and self.effects:
             raise BreakEx(self.fold(e["value"]) if "value" in e else None)
         if k == "Continue" and self.effects:
@@ -802,6 +804,14 @@ class Folder:
         params = cb["params"][1:]
         if len(params) != len(args):
             raise Undecidable("closure arity")
+        cenv = cl.get("__env__")
+        if cenv is not None and cenv is not self.env:
+            home = Folder(self.facts, env=None, on_call=self.on_call, effects=self.effects, local_calls=self.local_calls)
+            home.env = cenv
+            home.lets = self.lets
+            home.opaque_consts, home.views, home.max_iter, home.sym_eq, home.path = self.opaque_consts, self.views, self.max_iter, self.sym_eq, self.path
+            home.const_values = getattr(self, "const_values", None)
+            return home.apply_closure(cl, args)
         binds = {}
         for p, v in zip(params, args):
             ok, b = self._pat_match(p["pat"], v)
@@ -982,8 +992,8 @@ class Folder:
                 v = self.apply_closure(self.fold(a[1]), []) if last == "then" else self.fold(a[1])
                 return {"__adt__": "core::option::Option", "__variant__": "Some", "#0": v, "0": v}
         if last in ("call", "call_mut", "call_once") and cc.startswith("core::ops::") and len(a) == 2:
-            cl = self.fold(a[0])
-            if isinstance(cl, dict) and "__closure__" in cl:
+            cl = _loaded(self.fold(a[0]))
+            if isinstance(cl, dict) and ("__closure__" in cl or "__fn__" in cl):
                 args = self.fold(a[1])
                 return self.apply_closure(cl, list(args) if isinstance(args, (tuple, list)) else [args])
         return NotImplemented
@@ -1017,6 +1027,8 @@ class Folder:
                 return [x if isinstance(x, (Ref, dict, list)) else Ref(v, i) for i, x in enumerate(v)]
         if last in ("iter", "into_iter", "copied", "cloned", "as_slice", "as_ref", "deref", "by_ref", "deref_mut", "as_mut_slice") and len(a) == 1:
             v = self.fold(a[0])
+            if isinstance(v, Ref) and isinstance(v.load(), list) and last in ("deref", "deref_mut", "as_slice", "as_mut_slice", "as_ref"):
+                v = v.load()
             if isinstance(v, list) or (self._iterable(v) is not None and last in ("into_iter", "by_ref")):
                 # an iterator over a sequence is its own (shallow) list, so that `next()` can consume it without touching the source
                 return list(v) if isinstance(v, list) and last in ("iter", "into_iter") and self.effects else v
@@ -1085,6 +1097,37 @@ class Folder:
                     idxs = range(s0, min(s0 + n, len(v)))
                     out.append([(v[i] if isinstance(v[i], (Ref, dict, list)) else Ref(v, i)) if mut else v[i] for i in idxs])
                 return out
+            return NotImplemented
+        if last in ("sort_unstable_by_key", "sort_by_key", "sort_by_cached_key") and len(a) == 2 and cc.startswith(("core::slice::", "alloc::slice::")):
+            v, cl = _loaded(self.fold(a[0])), self.fold(a[1])
+            if isinstance(v, list) and isinstance(cl, dict) and ("__closure__" in cl or "__fn__" in cl) and not any(isinstance(x, Ref) for x in v):
+                keys = [_loaded(self.apply_closure(cl, [x])) for x in v]
+                if all(isinstance(k0, int) for k0 in keys) and (len(set(keys)) == len(keys) or last != "sort_unstable_by_key"):
+                    # (an unstable sort with equal keys has no defined result)
+                    order = sorted(range(len(v)), key=lambda i: keys[i])
+                    v[:] = [v[i] for i in order]
+                    return ()
+            return NotImplemented
+        if last in ("split_first_mut", "split_last_mut") and len(a) == 1:
+            v = _loaded(self.fold(a[0]))
+            if isinstance(v, list):
+                if not v:
+                    return opt(None, False)
+                refs = [x if isinstance(x, (Ref, dict, list)) else Ref(v, i) for i, x in enumerate(v)]
+                return opt((refs[0], refs[1:]) if last == "split_first_mut" else (refs[-1], refs[:-1]))
+            return NotImplemented
+        if cc == "core::option::Option::take" and len(a) == 1:
+            r0 = self.fold(a[0])
+            if isinstance(r0, Ref):
+                old_v = r0.load()
+                r0.store({"__adt__": "core::option::Option", "__variant__": "None"})
+                return old_v
+            if isinstance(r0, dict) and r0.get("__variant__") in ("Some", "None"):
+                # an Option value is shared by identity: emptied in place
+                old_v = dict(r0)
+                r0.clear()
+                r0.update({"__adt__": "core::option::Option", "__variant__": "None"})
+                return old_v
             return NotImplemented
         if last in ("split_first", "split_last") and len(a) == 1:
             v = _loaded(self.fold(a[0]))
